@@ -37,6 +37,8 @@ def user_series(const, n, r):
     i = np.arange(n).reshape(n, 1)
     j = np.arange(r).reshape(1, r)
     v = a + b * i + c * j
+    if len(const) > 4:
+        v = v + const[4] * n  # a series that depends on the requested sample size
     if dtype == 'int':
         return np.round(4 * v).astype(np.int64)
     if dtype == 'float32':
@@ -184,6 +186,11 @@ def _observe_mc(case):
         x = [the.id_manager.free_betas.expressions[n].initValue for n in the.free_beta_names]
         likes.append(float(the.calculate_likelihood(x, scaled=False)))
         tables.append(np.asarray(database2.theDraws, dtype=float).tolist())
+        if not res.get('sim_rows'):
+            # the same object: simulation, then the likelihood again (same draws throughout)
+            sim = the.simulate(dict(zip(the.free_beta_names, x)))
+            res['sim_rows'] = np.asarray(sim['log_like'], dtype=float).tolist()
+            res['like_after_simulate'] = float(the.calculate_likelihood(x, scaled=False))
     res['likes'] = likes
     res['bio_tables'] = tables
     return res
@@ -276,6 +283,14 @@ def judge_mc(case) -> Outcome:
         if not (l1 == l2 and np.array_equal(t1, t2)):
             out.fail(prefix + 'mc:seed_reproducibility',
                      f'seed={case["seed_param"]}: two fresh BIOGEME objects give {l1!r} and {l2!r}')
+    if 'sim_rows' in o:
+        s_ = float(np.sum(o['sim_rows']))
+        if not abs(l1 - s_) <= 1e-9 * (1 + np.sum(np.abs(o['sim_rows']))):
+            out.fail(prefix + 'mc:likelihood_vs_simulate', f'BIOGEME.calculate_likelihood {l1!r} but simulate() of the same object, same '
+                                                           f'parameters, sums to {s_!r}')
+        if o['like_after_simulate'] != l1:
+            out.fail(prefix + 'mc:likelihood_after_simulate', f'log likelihood {l1!r} before simulate(), {o["like_after_simulate"]!r} after, '
+                                                              f'same object and parameters')
     if not native_random:
         total = sum(ev.v for ev in refs)
         ttol = sum(tol(ev) for ev in refs) + 1e-10 * (1 + abs(total))
